@@ -26,6 +26,13 @@ class Block(Case):
     canary_scale = "Ae0"
     rtol = 1e-7
 
+    @property
+    def concrete(self):
+        c = self.params.get("exps")
+        if not c:
+            return None
+        return {f"{t}e{k}": v for t, vs in zip("AB", c) for k, v in enumerate(vs)}
+
     def inputs(self, mk):
         p = self.params
         return dict(sa=shell_spec(mk, "A", p["la"], p["Ka"], p["Ma"]), sb=shell_spec(mk, "B", p["lb"], p["Kb"], p["Mb"]))
@@ -74,9 +81,14 @@ def cases(tier):
     out.append(Public(ls=[2, 1], types="sc", Ks=[1, 1], Ms=[1, 1]))
     out.append(Public(ls=[1, 2], types="cs", Ks=[1, 1], Ms=[1, 1]))
     if tier == "thorough":
+        E = cm.EXP_POOL
         for la in range(4):
             for lb in range(4):
-                out.append(Block(la=la, lb=lb, Ka=2, Kb=2, Ma=2, Mb=2))
+                if la + lb <= 2:
+                    out.append(Block(la=la, lb=lb, Ka=2, Kb=2, Ma=2, Mb=2))
+                else:  # Level B: concrete exponents, everything else symbolic
+                    out.append(Block(la=la, lb=lb, Ka=2, Kb=2, Ma=2, Mb=2,
+                                     exps=[[str(E[(la + k) % 6]) for k in range(2)], [str(E[(lb + 3 + 2 * k) % 6]) for k in range(2)]]))
         for la, lb in [(0, 0), (1, 0), (1, 1), (2, 0)]:
             out.append(Block(la=la, lb=lb, Ka=3, Kb=2, Ma=1, Mb=3))
         out.append(Public(ls=[3], types="s", Ks=[1], Ms=[1]))
